@@ -12,7 +12,7 @@ def stepPhase (s : C12.St) (phase obs : String) : Except String C12.St := do
   let anyDiscard := !discardedNow.isEmpty
   let gone := if anyDiscard then (List.range s.vals.length) ++ s.discarded else s.discarded
   let mut newVals : List (Option Shards) := []
-  let mut newCtrs : List (List Nat) := []
+  let mut newCtrs : List C01.RunCtr := []
   let mut models := s.models
   for (it, o) in items.zip outs do
     if o.startsWith "hang" || o == "scanhang" then throw s!"`{it.take 30}` blocked"
@@ -21,10 +21,10 @@ def stepPhase (s : C12.St) (phase obs : String) : Except String C12.St := do
       let prog := (it.drop 4).toString
       let (p, _) := ProgParse.parseProgram prog
       if !(C12.usesAll s p) then
-        newVals := newVals ++ [none]; newCtrs := newCtrs ++ [[]]
+        newVals := newVals ++ [none]; newCtrs := newCtrs ++ [{}]
       else if o.startsWith "err:" || o.startsWith "fatal:" then
         if anyDiscard then
-          newVals := newVals ++ [none]; newCtrs := newCtrs ++ [[]]
+          newVals := newVals ++ [none]; newCtrs := newCtrs ++ [{}]
         else throw s!"a run failed although nothing was discarded concurrently: {o.take 200}"
       else
         match C01.checkProgram prog (C12.valsD s) s.ctrs o (lenient := true) with
